@@ -777,7 +777,7 @@ def judge(ctx, cfg, h, how="step"):
         if how == "run":
             rs = rs[0] + ".Run"
         if any(s == rs and c == 0 for s, c in h.steps):
-            viol("%s:invalid-point-accepted-by-receiver:%s,%s,%s" % (fn, rs, cls, kc),
+            viol("%s:invalid-point-accepted-by-receiver:%s" % (fn, rs),
                  "%s returned ERR_OK for a message %s whose point is not on the curve" % (rs, h.bad_point))
     if h.err:
         return keys
